@@ -47,4 +47,44 @@ def fusedSeq (chromD : List Char) (tD : Transcript) (lb : Nat) (chromA : List Ch
   readBases chromD tD.strand (donorPositions chromD.length tD lb) ++
   readBases chromA tA.strand (acceptorPositions chromA.length tA rb)
 
+/-! ## the four stretches of the fusion transcript (callVariant clause)
+
+`callVariant` treats the fusion transcript as a backbone whose coordinates refer to four
+stretches: the donor transcript's own (exonic) prefix — its length is the donor breakpoint in
+transcript coordinates —, the retained donor intron, the retained acceptor intron, and the
+acceptor transcript's own suffix (its first position bounds the ATGs a non-coding donor may use).
+In transcript order the retained intronic positions of the donor come LAST and those of the
+acceptor FIRST (`Props.C15.donorSplit_spec`, `acceptorSplit_spec`), so the stretches are cut out
+with `takeWhile` / `dropWhile`. -/
+
+/-- donor positions: (exonic prefix, retained intron) -/
+def donorSplit (n : Nat) (t : Transcript) (p : Nat) : List Nat × List Nat :=
+  let dp := donorPositions n t p
+  (dp.takeWhile (isExonic t), dp.dropWhile (isExonic t))
+
+/-- acceptor positions: (retained intron, exonic suffix) -/
+def acceptorSplit (n : Nat) (t : Transcript) (p : Nat) : List Nat × List Nat :=
+  let ap := acceptorPositions n t p
+  (ap.takeWhile (fun q => !isExonic t q), ap.dropWhile (fun q => !isExonic t q))
+
+structure FusedParts where
+  donorExonic : List Char
+  donorIntron : List Char
+  accIntron : List Char
+  accExonic : List Char
+
+def FusedParts.join (x : FusedParts) : List Char :=
+  x.donorExonic ++ x.donorIntron ++ x.accIntron ++ x.accExonic
+
+/-- `fusedSeq` cut into its four stretches (`Props.C15.fusedParts_join`: their concatenation IS
+`fusedSeq`) -/
+def fusedParts (chromD : List Char) (tD : Transcript) (lb : Nat) (chromA : List Char)
+    (tA : Transcript) (rb : Nat) : FusedParts :=
+  let d := donorSplit chromD.length tD lb
+  let a := acceptorSplit chromA.length tA rb
+  { donorExonic := readBases chromD tD.strand d.1
+    donorIntron := readBases chromD tD.strand d.2
+    accIntron := readBases chromA tA.strand a.1
+    accExonic := readBases chromA tA.strand a.2 }
+
 end MoPepGen.FusionSpec
